@@ -207,6 +207,20 @@ def gen_ops(cfg, amap, rng, word_bytes):
             for k in range(nops):
                 ops.append(Op(rng.randint(50, 400), rng.random() < wr_frac,
                               addr_of(rng.choice(hot_banks), rng.choice(hot_rows), rng.choice(hot_cols))))
+        elif cls in ("dir-stream-plus-rowmiss-w", "dir-stream-plus-rowmiss-r"):
+            # port 0 (victim): opposite direction on its own bank; port 1: row-hit stream in direction D on one bank;
+            # ports 2..: direction D with a new row on every access on further banks (an ACTIVATE every few cycles)
+            adv_we = cls.endswith("-w")
+            nb = nbanks_total
+            if p == 0:
+                for k in range(wl.get("victim_ops", 30)):
+                    ops.append(Op(rng.randint(0, 6), not adv_we, addr_of(nb - 1, hot_rows[0], rng.randrange(ncolw))))
+            elif p == 1:
+                for k in range(nops):
+                    ops.append(Op(0, adv_we, addr_of(0, hot_rows[0], rng.randrange(ncolw))))
+            else:
+                for k in range(nops):
+                    ops.append(Op(0, adv_we, addr_of(1 + (k + p) % max(1, nb - 2), rng.randrange(nrows), rng.randrange(ncolw))))
         elif cls in ("hammer-same-row", "hammer-alt-rows", "many-ports-one-bank", "yielding", "round-robin-banks",
                      "writes-vs-reader", "reads-vs-writer"):
             victim = (p == 0)
